@@ -162,6 +162,10 @@ where
 {
     let (c_l, l_c) = local_client.split();
     let (c_s, s_c) = client_server.split();
+    // a read error ends that direction like a close does: what was read before it is still flushed to the other side
+    // (`forward` returns at once on a stream error and leaves the bytes it has buffered in the sink behind)
+    let l_c = l_c.filter_map(|r| std::future::ready(r.inspect_err(|e| error!("[tcp] local*-client read failed; error={}", e)).ok())).map(Ok);
+    let s_c = s_c.filter_map(|r| std::future::ready(r.inspect_err(|e| error!("[tcp] server*-client read failed; error={}", e)).ok())).map(Ok);
 
     let l_c_s = async {
         match l_c.forward(c_s).await {
